@@ -47,7 +47,7 @@ type c16Plan struct {
 	CutAt     int    `json:"cut_at"`
 	RST       bool   `json:"rst"`
 	Pauses    int    `json:"pauses"`                // fault none: number of pauses while the response is being written
-	Early     bool   `json:"early_hints,omitempty"` // fault none: the backend sends 103 Early Hints before its response
+	Early     bool   `json:"early_hints,omitempty"` // the backend sends 103 Early Hints before its response (or before it fails: close/rst-after-request, stall)
 	Behind    string `json:"behind,omitempty"`      // the forwarder sits behind another oxy middleware: "" | breaker | rebalancer
 	HeadFirst bool   `json:"head_first,omitempty"`  // fault none, chunked: the backend sends its head and waits until the client has it
 	// the routing step (req.URL = backend) sits between the state listener and the forwarder, on the same request object
@@ -119,6 +119,10 @@ func (b *c16Backend) serve() {
 			if _, err := readRawReq(br); err != nil {
 				conn.Close()
 				return
+			}
+			if p.Early && p.Fault != "none" {
+				// an interim response first; the failure comes before the (final) response
+				_, _ = conn.Write([]byte("HTTP/1.1 103 Early Hints\r\nLink: </style.css>; rel=preload\r\n\r\n"))
 			}
 			switch p.Fault {
 			case "close-after-request", "rst-after-request":
@@ -467,6 +471,14 @@ func c16Relay(c *Ctx) {
 		if (p.Fault == "none" || p.Fault == "refuse" || p.Fault == "close-after-request") && r.IntN(3) == 0 {
 			p.Behind = pick(r, []string{"breaker", "rebalancer"})
 		}
+		if (p.Fault == "close-after-request" || p.Fault == "rst-after-request" || p.Fault == "stall") && r.IntN(3) == 0 {
+			// the backend sends 103 Early Hints and fails before its response; mostly behind a breaker / rebalancer
+			p.Early = true
+			if p.Fault != "stall" && r.IntN(4) != 0 {
+				p.Behind = pick(r, []string{"breaker", "rebalancer"})
+			}
+			c.Count("failures_after_an_interim_response", 1)
+		}
 		if p.Fault == "cancel-before-head" && r.IntN(3) == 0 {
 			p.Behind = "breaker"
 			p.NoCancel = r.IntN(2) == 0
@@ -635,6 +647,15 @@ func c16Relay(c *Ctx) {
 				}
 			}
 		case "refuse", "close-accept", "close-after-request", "rst-after-request", "bad-address":
+			if p.Early {
+				// the backend sent an interim response (103) and failed before its response: response bytes were received, so
+				// like a damaged head this is 502 or "any other failure" (500); what it can never be is a success or the 103
+				if status != 500 && status != 502 {
+					c.Violation("mapping/failed-after-interim", sfmt("fault %s after the backend had sent 103 Early Hints (behind=%q): client saw status %d (client error %v), recorded %d; want 502 or 500; error given to the error handler: %q", p.Fault, p.Behind, status, cr.err, recorded, errTxt), p)
+					return
+				}
+				break
+			}
 			if status != http.StatusBadGateway {
 				key := "mapping/no-response-502"
 				if strings.Contains(errTxt, "server closed idle connection") {
